@@ -302,6 +302,7 @@ class Compiler:
             sub_routines=self.sub_routines,
             parameters=params,
             return_type=ret_type,
+            tmp_prefix=f"{name}_",
         )
         transformer.macros = self.transformer.macros
         body = transformer.transform(ast_body)
